@@ -7,7 +7,7 @@ repo = sys.argv[1] if len(sys.argv) > 1 else "/repo"
 b = json.load(open("/root/.vp/BASELINE.json"))
 out = tempfile.mkdtemp(prefix="vf_baseline_")
 xml = os.path.join(out, "junit.xml")
-cmd = f"cd {repo} && /venv/bin/python -m pytest -ra -q -p no:cacheprovider --timeout=900 --continue-on-collection-errors --junitxml={xml}"
+cmd = f"cd {repo} && /venv/bin/python -m pytest -ra -q -p no:cacheprovider --timeout=900 --continue-on-collection-errors --junitxml={xml} " + os.environ.get("BASELINE_EXTRA", "")
 env = dict(os.environ); env["PYTHONPATH"] = repo; env.pop("VGI_RPC_VERIF", None)
 r = subprocess.run(cmd, shell=True, env=env, stdout=open(os.path.join(out, "log"), "w"), stderr=subprocess.STDOUT)
 passed, failed = set(), set()
